@@ -694,15 +694,22 @@ pub fn run(ctx: &mut Ctx) {
     let k = known.clone();
     let n_edits_c = ctx.tier.pick(60, 300);
     ctx.run_sub("compressed_values", n_cases, 14, move || case(max_ops, n_edits_c, true, thorough), move |c, st| prop_values(c, &k, st));
+    let k = known.clone();
+    let (ns, nse) = ctx.tier.pick((140, 160), (3000, 400));
+    ctx.run_sub("stark_values", ns, 14, move || stark_case(nse, thorough), move |c, st| prop_stark(c, &k, st));
+    // Length fields first, in a child process: an attempted huge allocation aborts the decoding process. If that
+    // already shows a violation, the in-process byte mutators are skipped (they would abort the harness itself).
+    let nl = ctx.tier.pick(28, 400);
+    ctx.run_sub("length_fields", nl, 14, move || byte_case(max_ops, 1, false), prop_length_fields);
+    if ctx.violations.iter().any(|v| v.0 == "length_fields") {
+        eprintln!("[C18] in-process byte-mutation sub-checks skipped: the decoder misbehaves on a length field");
+        return;
+    }
     let (nb_cases, nb_muts) = ctx.tier.pick((28, 600), (400, 3000));
     let k = known.clone();
     ctx.run_sub("plain_bytes", nb_cases, 14, move || byte_case(max_ops, nb_muts, false), move |c, st| prop_bytes(c, &k, st));
     let k = known.clone();
     let nb_muts_c = ctx.tier.pick(200, 1500);
     ctx.run_sub("compressed_bytes", nb_cases, 14, move || byte_case(max_ops, nb_muts_c, true), move |c, st| prop_bytes(c, &k, st));
-    let nl = ctx.tier.pick(28, 400);
-    ctx.run_sub("length_fields", nl, 14, move || byte_case(max_ops, 1, false), prop_length_fields);
-    let k = known.clone();
-    let (ns, nse) = ctx.tier.pick((140, 160), (3000, 400));
-    ctx.run_sub("stark_values", ns, 14, move || stark_case(nse, thorough), move |c, st| prop_stark(c, &k, st));
+
 }
